@@ -8,7 +8,7 @@ prop, src, n = sys.argv[1], sys.argv[2], sys.argv[3]
 checks = [prop]
 if "--checks" in sys.argv:
     checks = sys.argv[sys.argv.index("--checks") + 1].split(",")
-V = "/verif"; W = "/tmp/vseed"
+V = "/verif"; W = "/tmp/vseed_%s_%s" % (prop, n)
 def sh(cmd, **kw):
     return subprocess.run(cmd, shell=True, stdout=subprocess.PIPE, stderr=subprocess.STDOUT, text=True, **kw)
 dst = "%s/seeded/%s-%s" % (V, prop, n)
@@ -21,35 +21,32 @@ if not os.path.exists(W):
     print(sh("git -C /repo worktree add -f %s HEAD" % W).stdout)
 sh("git -C %s checkout -q --detach %s && git -C %s checkout -- . " % (W, sh("git -C /repo rev-parse HEAD").stdout.strip(), W))
 def build_demo():
-    r = sh("cd %s && make -j16 >/dev/null 2>&1; g++ -std=c++17 -I%s/src %s/demo.cpp %s/libOP2Utility.a -lstdc++fs -o /tmp/vseed_demo 2>&1 | tail -3" % (W, W, dst, W))
-    r2 = sh("cd /tmp && timeout 120 /tmp/vseed_demo 2>&1 | tail -3; echo rc=${PIPESTATUS[0]}", executable="/bin/bash")
+    r = sh("cd %s && make -j8 >/dev/null 2>&1; g++ -std=c++17 -I%s/src %s/demo.cpp %s/libOP2Utility.a -lstdc++fs -o %s_demo 2>&1 | tail -3" % (W, W, dst, W, W))
+    r2 = sh("cd /tmp && timeout 120 %s_demo 2>&1 | tail -3; echo rc=${PIPESTATUS[0]}" % W, executable="/bin/bash")
     return r.stdout + r2.stdout
 base = build_demo()
 ok_base = "rc=0" in base
 r = sh("git -C %s apply %s/patch.diff" % (W, dst))
 applied = r.returncode == 0
-suite = sh("cd %s && make -j16 check 2>&1 | tail -1" % W).stdout.strip()
+suite = sh("cd %s && make -j8 check 2>&1 | tail -1" % W).stdout.strip()
 mut = build_demo()
 ok_mut = "rc=0" not in mut
-sh("git -C %s checkout -- ." % W)
 meta["confirmed"] = {"patch_applies": applied, "suite_with_patch": suite, "demo_unchanged": base.strip()[-200:], "demo_with_patch": mut.strip()[-300:],
                      "ok": bool(applied and "PASSED  ] 141" in suite and ok_base and ok_mut)}
-print("[seed %s-%s] applies=%s suite=%s demo_base_ok=%s demo_mut_fails=%s" % (prop, n, applied, suite, ok_base, ok_mut))
+print("[seed %s-%s] applies=%s suite=%s demo_base_ok=%s demo_mut_fails=%s" % (prop, n, applied, suite, ok_base, ok_mut), flush=True)
 if meta["confirmed"]["ok"]:
-    assert sh("git -C /repo status --porcelain").stdout.strip() == "", "/repo not clean"
-    sh("git -C /repo apply %s/patch.diff" % dst)
-    try:
-        for c in checks:
-            t0 = time.time()
-            r = sh("cd %s && timeout 3000 ./check %s --tier quick --no-evidence 2>&1" % (V, c))
-            viol = re.findall(r"^VIOLATION .*$", r.stdout, re.M)
-            cex = re.findall(r"^  counterexample in .*$", r.stdout, re.M)
-            inc = re.findall(r"^INCONCLUSIVE .*$", r.stdout, re.M)
-            last = r.stdout.strip().split("\n")[-1]
-            meta["ran"].append({"check": "./check %s --tier quick" % c, "exit": r.returncode, "violations": viol[:5], "counterexamples": [x[:300] for x in cex[:5]], "inconclusive": [x[:200] for x in inc[:5]],
-                                "summary": last, "wall_s": round(time.time() - t0, 1)})
-            print("   check %s: exit=%s %s | %s" % (c, r.returncode, last, (cex[0][:200] if cex else (inc[0][:200] if inc else ""))))
-    finally:
-        sh("git -C /repo checkout -- .")
+    # the checks are pointed at the scratch worktree that carries the change (VF_REPO); equivalent to `git -C /repo apply`, run, `git -C /repo checkout -- .`,
+    # but leaves /repo alone so that other work can go on
+    for c in checks:
+        t0 = time.time()
+        r = sh("cd %s && VF_REPO=%s timeout 3000 ./check %s --tier quick --no-evidence 2>&1" % (V, W, c))
+        viol = re.findall(r"^VIOLATION .*$", r.stdout, re.M)
+        cex = re.findall(r"^  counterexample in .*$", r.stdout, re.M)
+        inc = re.findall(r"^INCONCLUSIVE .*$", r.stdout, re.M)
+        last = r.stdout.strip().split("\n")[-1]
+        meta["ran"].append({"check": "VF_REPO=<worktree with patch> ./check %s --tier quick" % c, "exit": r.returncode, "violations": viol[:5], "counterexamples": [x[:300] for x in cex[:5]], "inconclusive": [x[:200] for x in inc[:5]],
+                            "summary": last, "wall_s": round(time.time() - t0, 1)})
+        print("   check %s: exit=%s %s | %s" % (c, r.returncode, last, (cex[0][:200] if cex else (inc[0][:200] if inc else ""))), flush=True)
 meta["detected"] = any(x["exit"] == 1 for x in meta["ran"])
 json.dump(meta, open(os.path.join(dst, "meta.json"), "w"), indent=1)
+sh("git -C /repo worktree remove --force %s; rm -f %s_demo" % (W, W))
